@@ -40,9 +40,10 @@ pub fn raw<'text, Sc, F, V>(mut parser: F)
     move |lexer, ctx| {
         let _trace_span = span!(Level::DEBUG, "~raw").entered();
 
-        let mut ctx = ctx.clone()
+        // NOTE: The local context is shared by every clone of the context,
+        // so it must not be emptied: the enclosing parse still needs it.
+        let ctx = ctx.without_local_context()
             .locked(true);
-        let _ = ctx.take_local_context();
         event!(Level::TRACE, "error contexts disabled");
 
         (parser)
